@@ -366,3 +366,109 @@ def reset_before_dispatch(prog, an, rep, pid):
     rep.check(ok, R, g.qname + ': new temporary directory, remote caches '
               'cleared', g.where(), 'Repository.reset assigns %s' %
               sorted(txt), detail=str(sorted(txt.items())))
+
+
+# ------------------------------------------- call-site sensitive publishing
+GUARDED_DEFAULTS = {'remove': False, 'merge': False, 'create': True}
+
+
+def _branch_family(prog):
+    return {k.qname for k in prog.subclasses(GIT + '.Branch')}
+
+
+def do_push_at(call, method):
+    """Constant value of the do_push argument at a call site of
+    Branch.remove / create / merge; None if not a constant."""
+    v = None
+    for k in call.keywords:
+        if k.arg == 'do_push':
+            v = k.value
+        if k.arg is None:
+            return None      # **kwargs: unknown
+    if v is None and method == 'create' and len(call.args) > 1:
+        v = call.args[1]
+    if v is None and method == 'remove' and len(call.args) > 2:
+        v = call.args[2]
+    if v is None:
+        return GUARDED_DEFAULTS[method]
+    if isinstance(v, ast.Constant):
+        return bool(v.value)
+    return None
+
+
+def publishing_sites(an, f, depth=10, _seen=None):
+    """Call sites through which f may update a remote ref:
+    [(function, call, primitive)].  Branch.remove / create / merge publish
+    only if do_push is (or may be) true at the call site; that they publish
+    only under do_push is a separate rule (guarded_primitives)."""
+    prog = an.prog
+    fam = _branch_family(prog)
+    out = []
+    seen = _seen if _seen is not None else set()
+    if f.qname in seen or depth < 0:
+        return out
+    seen.add(f.qname)
+    units = [f] + list(f.nested.values())
+    for u in units:
+        for call in prog.calls_in(u):
+            targets = an.call_targets(u, call)
+            for t in sorted(targets):
+                g = prog.funcs.get(t)
+                if g is None:
+                    continue
+                if t in PUBLISH:
+                    out.append((u, call, t))
+                    continue
+                if g.cls is not None and g.cls.qname in fam and \
+                        g.name in GUARDED_DEFAULTS:
+                    v = do_push_at(call, g.name)
+                    if v is None and u.cls is not None and \
+                            u.cls.qname in fam and u.name == g.name:
+                        continue   # override forwarding its own do_push
+                    if v is not False:
+                        out.append((u, call, t + '(do_push)'))
+                    continue
+                out.extend(publishing_sites(an, g, depth - 1, seen))
+        # function values handed to wrappers: retry.run(repo.push_all, ...)
+        for call in prog.calls_in(u):
+            for a in list(call.args) + [k.value for k in call.keywords]:
+                if isinstance(a, ast.Attribute) and \
+                        a.attr in ('push', 'push_all') and \
+                        not isinstance(a.value, ast.Call):
+                    for m in prog.methods_named(a.attr):
+                        if m.qname in PUBLISH:
+                            out.append((u, call, m.qname))
+    return out
+
+
+def guarded_primitives(prog, an, rep, pid):
+    """In Branch.remove / create / merge the remote update is dominated by
+    the true edge of the do_push test."""
+    R = pid + '.MPT.do-push-guard'
+    for name in ('remove', 'create', 'merge'):
+        f = need_func(an, GIT + '.Branch.' + name)
+        c = an.cfg(f)
+        pushes = [n for n in c.nodes.values() if n.kind == 'stmt' and any(
+            isinstance(x, ast.Call) and isinstance(x.func, ast.Attribute)
+            and x.func.attr == 'push' for x in ast.walk(n.ast))]
+        var = 'do_push'
+        gates = an.branch_nodes(
+            f, lambda e: isinstance(e, ast.Name) and e.id == var, True)
+        rep.floor('%s push statements in Branch.%s' % (pid, name),
+                  len(pushes), 1)
+        for p_ in pushes:
+            rep.evaluated()
+            ok, path = c.must_pass(gates, p_.id)
+            rep.check(ok and bool(gates), R, f.qname + ': remote update '
+                      'only under do_push', f.where(p_),
+                      'Branch.%s updates the remote even when do_push is '
+                      'false' % name, path=c.describe_path(path))
+        # do_push comes from the keyword / parameter, not from a constant
+        st = stores_to(f, var)
+        if name == 'merge':
+            ok = len(st) == 1 and st[0][1] is not None and \
+                src(st[0][1]) == "kwargs.pop('do_push', False)"
+            rep.check(ok, pid + '.KWC.do-push-default', f.qname +
+                      ': do_push defaults to False', f.where(),
+                      'do_push of Branch.merge is bound as %s' %
+                      [src(v) for _, v in st if v is not None])
